@@ -118,7 +118,10 @@ def run(R, only_cases=None):
 def total_on_dumps(R, rnd):
     n = 150 if R.tier == "quick" else 1500
     # fixed witnesses of the open findings D24 / D15c first, then generated values
-    specs = [["partial", "np.add", [["int", 1]], []], ["dict", [[["str", "key_types"], ["int", 1]]]]]
+    specs = [["partial", "np.add", [["int", 1]], []], ["dict", [[["str", "key_types"], ["int", 1]]]],
+             # D32 (repaired): keys of an untrusted type used to make visualize raise "invalid 'key_types' node"
+             ["dict", [[["none"], ["int", 1]]]], ["dict", [[["mystr", "a"], ["int", 1]]]], ["dict", [[["myint", 3], ["list", [["int", 1]]]]]],
+             ["list", [["dict", [[["str", "a"], ["int", 1]], [["none"], ["list", [["int", 2]]]]]]]]]
     specs += [GV.gen_value(rnd, supported=(i % 2 == 0)) for i in range(n)]
     shards = 8
     from concurrent.futures import ThreadPoolExecutor
